@@ -180,6 +180,10 @@ def vp_reach(ex, st, fr, ins, args):
     label = _name(args[0])
     ex.res.labels.add(label)
     st.labels.append(label)
+    if label == 'inputs' and getattr(ex, 'entry', None) is None:
+        # the harness inputs and their assumptions, before the code under test runs
+        # (used by the driver to draw path-independent witnesses for the native oracle)
+        ex.entry = (list(st.pc), dict(st.nondet), dict(st.choices))
     if not ex.res.reached.get(label):
         r = ex.sat(st, None)
         if r == 'sat':
